@@ -135,6 +135,8 @@ def random_units(rnd, L, lattice_period_units=True):
             # how the prior object is made: parameter by parameter, or through JokerPrior.default(sigma_K0=, P0=, sigma_v=, s=)
             # whenever the configuration is one that builder can express (default K prior, no cap, zero means of K and v_i)
             "builder": rnd.choice(["explicit", "default"]),
+            # the order in which the offset priors are handed over (they are matched to surveys by NAME, dv0_k, not by position)
+            "offorder": rnd.choice(["named", "reversed"]),
             "err_units": [rnd.choice(["km/s", "m/s"]) for _ in range(3)]}
 
 
@@ -207,7 +209,8 @@ def build(g, ua, jitter_kind="sampled"):
             prior = JokerPrior.default(P_min=np.float64((0.01 * u.day).to_value(pu)) * pu, P_max=np.float64((1000.0 * u.day).to_value(pu)) * pu,
                                        sigma_K0=np.float64((math.sqrt(g["sK0sq"]) * kms).to_value(ku)) * ku,
                                        P0=np.float64((P0_days * u.day).to_value(U(ua["p0"]))) * U(ua["p0"]),
-                                       sigma_v=sv if len(sv) > 1 else sv[0], s=s_arg, poly_trend=poly, v0_offsets=offs, model=model)
+                                       sigma_v=sv if len(sv) > 1 else sv[0], s=s_arg, poly_trend=poly,
+                                       v0_offsets=offs[::-1] if ua.get("offorder") == "reversed" else offs, model=model)
     if not via_default:
       with pm.Model() as model:
           pu = U(ua["pprior"])
@@ -244,7 +247,7 @@ def build(g, ua, jitter_kind="sampled"):
                   offs.append(var_)
               else:
                   pars[name] = var_
-          prior = JokerPrior(pars=pars, poly_trend=poly, v0_offsets=offs, model=model)
+          prior = JokerPrior(pars=pars, poly_trend=poly, v0_offsets=offs[::-1] if ua.get("offorder") == "reversed" else offs, model=model)
     try:
         prior._verif_via_default = bool(via_default)
     except Exception:
@@ -733,7 +736,7 @@ def build_real(c, ua):
                 offs.append(var_)
             else:
                 pars[name] = var_
-        prior = JokerPrior(pars=pars, poly_trend=poly, v0_offsets=offs, model=model)
+        prior = JokerPrior(pars=pars, poly_trend=poly, v0_offsets=offs[::-1] if ua.get("offorder") == "reversed" else offs, model=model)
     smp = JokerSamples(poly_trend=poly, n_offsets=noff)
     smp["P"] = (np.array([c["P"]]) * u.day).to(U(ua["sP"]))
     smp["e"] = np.array([c["e"]])
